@@ -33,9 +33,142 @@ def rand_options(rng, syntax):
     if rng.random() < 0.1:
         o['markup.valuePrefix'] = rng.choice([{'class*': 'st'}, {'class': 'one', 'class*': 'many'}, {'id': 'ids'}])
         o['output.attributeQuotes'] = 'double'      # the prefixed form prefix['v'] contains single quotes (observer limit)
+    if KEY_SHAPE_TABLES:
+        # tables put together entry by entry (every key shape per name) instead of the few fixed ones above
+        if rng.random() < 0.22:
+            o['markup.attributes'] = rand_key_table(rng, MAP_TARGETS)
+        if rng.random() < 0.1:
+            o['markup.valuePrefix'] = rand_key_table(rng, PREFIX_TARGETS)
+            o['output.attributeQuotes'] = 'double'
     if rng.random() < 0.3:
         o['output.format'] = False
     return o
+
+
+# ---------------------------------------------------------------- name / prefix tables by key shape, shorthand runs
+# Emmet configuration docs (emmetio/emmet src/config.ts, `markup.attributes` / `markup.valuePrefix`): "Attribute name
+# mapping ... If a key ends with `*`, this value will be used for multiple attributes: currently, it's a `class` and
+# `id` since the `multiple` marker is added for shorthand attributes only.  Example: { "class*": "styleName" } ~>
+# `..test` -> styleName={styles.test}".  So a shorthand written as a RUN of its operator (`..a`, `...a`, `##a`) is looked
+# up under `name*` first and under the plain `name` when the table has no starred entry; everything else (single
+# operator, [name=..] sets) is looked up under the plain name only and never sees a starred entry.  A table given by the
+# user stands for the whole option (the syntax default table is replaced, not merged).  Which entry applies therefore
+# depends on (shape of the table for that name) x (how the FIRST mention of the name is written): both are generated
+# as a product here.  Stated in attr_util.multi_get / attr_out_spec on the written mentions.
+KEY_SHAPE_TABLES = True        # tables built per name from the key shapes plain / starred / both (off = fixed tables only)
+SHORTHAND_RUNS = True          # the stream and sweep of shorthand runs (`..a`, `...a`, `##a`) x table shapes
+MAP_TARGETS = ['className', 'styleName', ':class', 'v-bind:id', 'htmlFor', 'klass', 'ID', 'data-n', 'x-y', 'N1', 'ng:k', '@z']
+PREFIX_TARGETS = ['styles', 'st', 'ids', 'css', 'this', 'S1', 's2', 'm_2']
+KEY_SHAPES = ('plain', 'star', 'both')
+
+
+def rand_key_table(rng, targets, names=None):
+    """A user table for markup.attributes / markup.valuePrefix: 1-4 names (class and id most of the time, the others
+    from the mention vocabulary), each with a plain entry, a starred entry or both, all values distinct."""
+    if names is None:
+        names = []
+        for nm in ('class', 'id'):
+            if rng.random() < 0.7:
+                names.append(nm)
+        for nm in rng.sample(au.NAMES, rng.choice([0, 0, 1, 2])):
+            if nm not in names:
+                names.append(nm)
+        rng.shuffle(names)
+    vals = rng.sample(targets, len(targets))
+    table = {}
+    for nm in names:
+        shape = rng.choice(KEY_SHAPES)
+        if shape in ('plain', 'both'):
+            table[nm] = vals.pop()
+        if shape in ('star', 'both'):
+            table[nm + '*'] = vals.pop()
+        if len(vals) < 2:
+            break
+    return table
+
+
+def key_shape(table, name):
+    if table is None:
+        return 'no-table'
+    return {(False, False): 'absent', (True, False): 'plain', (False, True): 'star', (True, True): 'both'}[
+        (name in table, name + '*' in table)]
+
+
+def shorthand(rng, name, run, jsx=False, word=None):
+    """One id/class shorthand written with `run` operators in a row (run >= 2: flagged multiple)."""
+    op = '.' if name == 'class' else '#'
+    v = word if word is not None else au.rand_word(rng, au.WORD)
+    if jsx and rng is not None and rng.random() < 0.25:
+        return au.mention(name, v, 'expr', multiple=run > 1, text=op * run + '{%s}' % v, form=name)
+    return au.mention(name, v, 'raw', multiple=run > 1, text=op * run + v, form=name)
+
+
+def run_mentions(rng, jsx=False):
+    """Mentions of one element in which id/class shorthands are written with 1-4 operators in a row, as the first and
+    as a later mention of their name, mixed with [class=..] / [id=..] / other sets.  Returns (text, mentions)."""
+    chunks, mentions = [], []
+    n = rng.choice([1, 1, 2, 2, 3, 3, 4, 5])
+    while len(mentions) < n:
+        k = rng.random()
+        if k < 0.6:
+            m = shorthand(rng, 'class' if rng.random() < 0.65 else 'id', rng.choice([1, 2, 2, 2, 3, 3, 4]), jsx)
+            mentions.append(m)
+            chunks.append(m['text'])
+        elif k < 0.8:
+            nm = rng.choice(['class', 'id'])
+            v = au.rand_word(rng, au.WORD)
+            q = rng.choice(['', '"', "'"])
+            m = au.mention(nm, v, {'': 'raw', '"': 'q2', "'": 'q1'}[q], text='%s=%s%s%s' % (nm, q, v, q))
+            mentions.append(m)
+            chunks.append('[' + m['text'] + ']')
+        else:
+            m = au.rand_set_mention(rng, jsx)
+            mentions.append(m)
+            chunks.append('[' + m['text'] + ']')
+    return ''.join(chunks), mentions
+
+
+def run_options(rng, syntax):
+    """Options of the shorthand-run stream: a name table and/or a prefix table by key shape most of the time."""
+    o = rand_options(rng, syntax)
+    k = rng.random()
+    if k < 0.55:
+        o['markup.attributes'] = rand_key_table(rng, MAP_TARGETS)
+    if 0.4 < k < 0.8:
+        o['markup.valuePrefix'] = rand_key_table(rng, PREFIX_TARGETS)
+        o['output.attributeQuotes'] = 'double'
+    return o
+
+
+def run_sweep():
+    """(name in class, id) x (how its mentions are written: a run of 1-3 operators alone / before / after a single
+    shorthand / before / after a [name=..] set) x (user tables: markup.attributes, markup.valuePrefix or both, with the
+    entry for the name absent / plain / starred / both, or an empty table) x syntax."""
+    forms = []
+    for name, op in (('class', '.'), ('id', '#')):
+        for r in (1, 2, 3):
+            run = shorthand(None, name, r, word='a')
+            one = shorthand(None, name, 1, word='b')
+            st = au.mention(name, 'c', 'raw', text='%s=c' % name)
+            forms.append((run['text'], [run]))
+            forms.append((run['text'] + one['text'], [run, one]))
+            forms.append((one['text'] + run['text'], [one, run]))
+            forms.append(('[%s]%s' % (st['text'], run['text']), [st, run]))
+            forms.append(('%s[%s]' % (run['text'], st['text']), [run, st]))
+    out = []
+    for text, ms in forms:
+        name = ms[0]['name']
+        other = 'id' if name == 'class' else 'class'
+        maps = [{}, {other: 'oth', 'title': 'T'}, {name: 'plainN'}, {name + '*': 'starN'}, {name: 'plainN', name + '*': 'starN'}]
+        pres = [{name: 'pp'}, {name + '*': 'ps'}, {name: 'pp', name + '*': 'ps'}]
+        tables = [{'markup.attributes': m} for m in maps] + [{'markup.valuePrefix': p} for p in pres]
+        tables += [{'markup.attributes': {name: 'plainN'}, 'markup.valuePrefix': {name + '*': 'ps'}},
+                   {'markup.attributes': {name + '*': 'starN'}, 'markup.valuePrefix': {name: 'pp'}}]
+        for t in tables:
+            for syntax in ('html', 'xml', 'jsx', 'vue'):
+                cfg = {'options': dict(t)} if syntax == 'html' else {'syntax': syntax, 'options': dict(t)}
+                out.append(('x' + text, cfg, [('x', copy.deepcopy(ms))], 'tags'))
+    return out
 
 
 def resolved_options(cfg):
@@ -477,6 +610,15 @@ def run(ctx):
                        'tokens (${n}, ${n:ph}; field first / middle / last, 1-4 tokens, unquoted / quoted / expression): exhaustive '
                        'sweep of all shapes of <= 2 tokens per (element, name, position) + random trees x options; judged on the output '
                        'with a marking output.field and with the default one; only an EMPTY for/id inside label>control is unclaimed. '
+                       'Name and prefix tables by key shape (Emmet config docs: a key ending in `*` applies to shorthands '
+                       'written as a run of their operator, the plain key otherwise and as the fall back): user '
+                       'markup.attributes / markup.valuePrefix built per name (class, id, other mention names) with a plain '
+                       'entry, a starred entry or both, in every random stream; shorthand runs of 1-4 operators (`.a` `..a` '
+                       '`...a` `#a` `##a`, jsx `..{e}`) as the first and as a later mention of their name, mixed with [class=..] '
+                       '/ [id=..] sets: exhaustive sweep (name x run length 1-3 x alone / before / after a single shorthand / '
+                       'before / after a set x table entry absent / plain / starred / both / empty table, for either table and '
+                       'both x html/xml/jsx/vue) + random elements x options; buckets C03:name-table / C03:prefix-table = '
+                       '(name, key shape of the user table, how the first mention is written). '
                        'Every reported failure is re-run in a fresh interpreter; an order-dependent one gets the earlier call(s) of the '
                        'run as a prelude in its replay file. '
                        'non-trivial = an element with a repeated name; distinct by abbreviation + config.')
@@ -509,6 +651,13 @@ def run(ctx):
             syntax = rng.choice(['html', 'html', 'xml', 'jsx', 'vue'])
             abbr, cfg, exp = build_case(rng, syntax, rand_options(rng, syntax), gen=bracket_mentions)
             cases.append((abbr, cfg, exp, 'tags'))
+    # shorthand runs (`..a`, `...a`, `##a`) as first / later mention x name and prefix tables by key shape
+    if SHORTHAND_RUNS:
+        cases += run_sweep()
+        for _ in range(800 if ctx.tier == 'quick' else 15000):
+            syntax = rng.choice(['html', 'html', 'xml', 'jsx', 'vue'])
+            abbr, cfg, exp = build_case(rng, syntax, run_options(rng, syntax), gen=run_mentions)
+            cases.append((abbr, cfg, exp, 'tags'))
     # the HTML vocabulary (default snippets, label with a control inside) x values made of text and tabstop tokens
     sweep = av.sweep_cases()
     for k, (abbr, cfg, exp) in enumerate(sweep):
@@ -532,6 +681,18 @@ def run(ctx):
             for m in e[1]:
                 for b in m.get('brackets') or ():
                     ctx.cover('C03:unquoted-brackets:' + b)
+        uo = cfg.get('options') or {}
+        if 'markup.attributes' in uo or 'markup.valuePrefix' in uo:
+            for e in exp:
+                first = {}
+                for m in e[1]:
+                    if m['name'] in ('class', 'id') and m['name'] not in first:
+                        first[m['name']] = m
+                for nm, m in first.items():
+                    how = 'run-first' if m.get('multiple') else 'single-first' if m.get('form') in ('class', 'id') else 'set-first'
+                    for opt, lab in (('markup.attributes', 'name-table'), ('markup.valuePrefix', 'prefix-table')):
+                        if opt in uo:
+                            ctx.cover('C03:%s:%s:%s:%s' % (lab, nm, key_shape(uo[opt], nm), how))
         for e in exp:
             ms = e[1]
             names = [m['name'] for m in ms if m['name']]
